@@ -269,6 +269,8 @@ var fieldNames = []string{"a", "b", "c", "aa", "x", "foo", "é", "A", "_u", "key
 var quotedNames = []string{"a", "b", "with space", "d.e", "é", "", "key-1", "x", "0", "[]", "a?b", "<k&>", "k\u2028", " k", "k\t", "k\x00", "~", "'tis", "users'", "'q'", "''", "'", "a'b",
 	// characters that displays treat specially (bidirectional controls, zero-width and soft characters, replacement
 	// character, combining marks): to a parser and printer they are characters of a name like any other
+	// a quote preceded by a backslash does not end the quoted name; both characters belong to it
+	`a\"b`, `\"`, `x\".y`, `\"]`, `a\\b`,
 	"a\u202eb", "\u202e", "\u200fx", "\u2066iso\u2069", "\u061c", "x\ufeff", "so\u00adft", "zw\u200dj", "\ufffd", "e\u0301", "\u202atxt.exe"}
 
 // GenCfg biases segment generation.
